@@ -74,6 +74,8 @@ type Upstream struct {
 	idAlias  uint32
 	wireConn *wire.ClientConn
 
+	wireConnMu sync.Mutex // guards wireConn between resume and a concurrent Close
+
 	sent   sentStorage
 	logger log.Logger
 
@@ -160,7 +162,10 @@ func (u *Upstream) closeWithError(ctx context.Context, causeError error, opts ..
 	}
 
 	state := u.stateWithoutLock()
-	resp, err := u.wireConn.SendUpstreamCloseRequest(ctx, &message.UpstreamCloseRequest{
+	u.wireConnMu.Lock()
+	wireConn := u.wireConn // a resume may be replacing it
+	u.wireConnMu.Unlock()
+	resp, err := wireConn.SendUpstreamCloseRequest(ctx, &message.UpstreamCloseRequest{
 		StreamID:            u.ID,
 		TotalDataPoints:     state.TotalDataPoints,
 		FinalSequenceNumber: state.LastIssuedSequenceNumber,
@@ -707,7 +712,9 @@ func (u *Upstream) resume(newConn *wire.ClientConn) error {
 	if !u.state.Is(streamStatusResuming) {
 		return fmt.Errorf("invalid state want[%v] but[%v]", streamStatusResuming, u.state.Current())
 	}
+	u.wireConnMu.Lock()
 	u.wireConn = newConn
+	u.wireConnMu.Unlock()
 
 	var resp *message.UpstreamResumeResponse
 	var resErr error
